@@ -282,6 +282,20 @@ def gen_specs(tier, seed):
     rnd = random.Random(seed)
     n = 3000 if tier == 'thorough' else 330
     specs = [cc.gen_spec(rnd, 'json') for _ in range(n)]
+    # falsy but meaningful values in every exported model field (own random stream: the generated specs above stay what they were)
+    r2 = random.Random('c06-falsy/%d' % seed)
+    for s in specs:
+        if s['cls'] == 'model' and r2.random() < 0.4:
+            m = s['model']
+            for p in list(m['params']):
+                if r2.random() < 0.4:
+                    m['params'][p] = r2.choice([0.0, 0.0, 0, -0.0])
+            if r2.random() < 0.5:
+                m['rmse'] = r2.choice([0.0, 0])
+            if r2.random() < 0.5:
+                m['prange'] = r2.choice([(0.0, 0.0), (0, 0), (0.0, m['prange'][1]), [0.0, 0.0]])
+            if r2.random() < 0.5:
+                m['lrange'] = r2.choice([(0.0, 0.0), (0, 0), (0, m['lrange'][1])])
     # directed cases: user-assigned all-adsorption on non-monotonic data, all-desorption, one point, shifted row labels
     for k in range(12 if tier == 'quick' else 60):
         s = cc.gen_spec(rnd, 'json', cls='point')
@@ -500,7 +514,9 @@ def explore(rep, tier, seed):
                        '1e-320 and 1e308, bools, None, lists, nested dicts) x string/file target, plus directed cases. non-trivial = distinct '
                        '(class, typed metadata shape, number of rows, unit labels, column dtypes) whose round trip preserved the content; multi-step cases: '
                        '{1-3 permanent conversions before the export | registered namesake of the material (same keys, other values) and of an unknown adsorbate '
-                       'during the import | in-place edit of the imported copy then second import of the same text}')
+                       'during the import | in-place edit of the imported copy then second import of the same text}; model isotherms: 70% built by assigning '
+                       'parameters / ranges / fit error as attributes of a fresh model instance (as a fit does), 30% through the model constructor; 40% of '
+                       'them with falsy values (0, 0.0, -0.0, (0, 0)) in parameters, ranges and fit error')
     rep.cov['query_histories'] = {'cases': n_hist, 'queries_performed': dict(sorted(n_q.items())),
                                   'rule': 'every public method / property found on the class except from_* / guess / convert* / plot / print_info / '
                                           'to_xl / to_db, 1-6 per history with drawn optional arguments (branch, units of the returned value, '
